@@ -146,6 +146,9 @@ func c11Apply(state string, op stOp) (stRes, string) {
 		if state == "" {
 			return stRes{Class: "notfound"}, state
 		}
+		if op.Veto {
+			return stRes{Class: "veto"}, state
+		}
 		return stRes{Class: "ok"}, ""
 	case "value":
 		if state == "" {
@@ -199,6 +202,11 @@ func c11Exec(k storeKind, rt store.ReadTxn, wt store.WriteTxn, op stOp) stRes {
 		}
 		return stRes{Class: class(err)}
 	case "delete":
+		if op.Veto {
+			// the id's write lock is held: no other transaction on this id looks at the flag
+			c11VetoDelete.Store(wt.ID(), true)
+			defer c11VetoDelete.Delete(wt.ID())
+		}
 		return stRes{Class: class(wt.Delete())}
 	case "value":
 		v, err := rt.Value()
@@ -211,6 +219,9 @@ func c11Exec(k storeKind, rt store.ReadTxn, wt store.WriteTxn, op stOp) stRes {
 	}
 	return stRes{Class: "?"}
 }
+
+// c11VetoDelete: ids whose next Delete the BeforeChange listener vetoes.
+var c11VetoDelete sync.Map
 
 type cbRec struct {
 	ID     string `json:"id"`
@@ -242,7 +253,11 @@ func c11RandOps(r *rand.Rand, k storeKind, write bool, uid func() string) []stOp
 		case v < 17:
 			ops = append(ops, stOp{Kind: "exists"})
 		case v < 19 && k.Impl == "badger" && !k.Bare:
-			ops = append(ops, stOp{Kind: []string{"create", "update"}[r.Intn(2)], UID: uid(), Veto: true})
+			if r.Intn(3) == 0 {
+				ops = append(ops, stOp{Kind: "delete", Veto: true})
+			} else {
+				ops = append(ops, stOp{Kind: []string{"create", "update"}[r.Intn(2)], UID: uid(), Veto: true})
+			}
 		case k.Impl == "badger" && r.Intn(2) == 0:
 			ops = append(ops, stOp{Kind: []string{"create", "update"}[r.Intn(2)], UID: uid(), Bad: true})
 		case k.Impl == "badger":
@@ -302,6 +317,9 @@ func c11Concurrent(c *core.Ctx, k storeKind, ns string) bool {
 		bst.BeforeChange(func(id string, before, after interface{}) error {
 			if after != nil && valVeto(after) {
 				return errVeto
+			}
+			if _, veto := c11VetoDelete.Load(id); veto && after == nil {
+				return errVeto // a delete the listener does not allow
 			}
 			return nil
 		})
@@ -541,18 +559,45 @@ func (s *c11Stamp) UnmarshalBinary(b []byte) error {
 	return nil
 }
 
-// c11MarshalerType: the map behaviour on a store typed with c11Stamp.
+// c11Bin has both binary methods where they are usually written, on the pointer: a store
+// typed with *c11Bin is documented to keep its values in that binary form.
+type c11Bin struct{ U string }
+
+func (b *c11Bin) MarshalBinary() ([]byte, error) { return []byte("bin:" + b.U), nil }
+func (b *c11Bin) UnmarshalBinary(d []byte) error {
+	b.U = strings.TrimPrefix(string(d), "bin:")
+	return nil
+}
+
+// c11MarshalerType: the map behaviour on stores typed with c11Stamp and with *c11Bin.
 func c11MarshalerType(c *core.Ctx, k storeKind, ns string) {
+	c11MarshalerTypeOne(c, k, ns, false)
+	c11MarshalerTypeOne(c, k, ns, true)
+}
+
+func c11MarshalerTypeOne(c *core.Ctx, k storeKind, ns string, ptr bool) {
 	db, err := sharedBadger()
 	if err != nil {
 		return
 	}
 	st := badgerstore.NewStore(db).SetType(c11Stamp{})
-	if k.Prefix != "" {
-		st.SetPrefix(k.Prefix + ns + "stamp")
+	vt := "struct with MarshalBinary on the value and UnmarshalBinary on the pointer"
+	sfx := "stamp"
+	if ptr {
+		st = badgerstore.NewStore(db).SetType(&c11Bin{})
+		vt, sfx = "pointer type with MarshalBinary and UnmarshalBinary (binary form)", "bin"
 	}
-	id := ns + "-stamp"
-	desc := map[string]interface{}{"store": k, "value_type": "struct with MarshalBinary on the value and UnmarshalBinary on the pointer", "id": id}
+	mk := func(u string) interface{} {
+		if ptr {
+			return &c11Bin{U: u}
+		}
+		return c11Stamp{U: u}
+	}
+	if k.Prefix != "" {
+		st.SetPrefix(k.Prefix + ns + sfx)
+	}
+	id := ns + "-" + sfx
+	desc := map[string]interface{}{"store": k, "value_type": vt, "id": id}
 	step := func(what string, f func() (string, error), want string) bool {
 		var got string
 		var err error
@@ -565,7 +610,7 @@ func c11MarshalerType(c *core.Ctx, k storeKind, ns string) {
 		}
 		if got != want {
 			desc["step"], desc["got"], desc["want"] = what, got, want
-			c.Violation("C11/seq-result:badger:marshaler-type:"+what, fmt.Sprintf("store typed with a MarshalBinary-only value type: %s gives %q, the map model says %q", what, got, want), desc)
+			c.Violation("C11/seq-result:badger:marshaler-type:"+sfx+":"+what, fmt.Sprintf("store typed with a %s: %s gives %q, the map model says %q", vt, what, got, want), desc)
 			return false
 		}
 		return true
@@ -577,17 +622,22 @@ func c11MarshalerType(c *core.Ctx, k storeKind, ns string) {
 		if err != nil {
 			return "", err
 		}
-		s, ok := v.(c11Stamp)
-		if !ok {
-			return fmt.Sprintf("%T", v), nil
+		switch s := v.(type) {
+		case c11Stamp:
+			return s.U, nil
+		case *c11Bin:
+			if s == nil {
+				return "<nil pointer>", nil
+			}
+			return s.U, nil
 		}
-		return s.U, nil
+		return fmt.Sprintf("%T", v), nil
 	}
 	wt := st.Write(id)
-	ok := step("create", func() (string, error) { return "ok", wt.Create(c11Stamp{U: "a"}) }, "ok") &&
+	ok := step("create", func() (string, error) { return "ok", wt.Create(mk("a")) }, "ok") &&
 		step("value-in-write-txn", func() (string, error) { return val(wt) }, "a") &&
 		step("exists-in-write-txn", func() (string, error) { return fmt.Sprint(wt.Exists()), nil }, "true") &&
-		step("update", func() (string, error) { return "ok", wt.Update(c11Stamp{U: "b"}) }, "ok") &&
+		step("update", func() (string, error) { return "ok", wt.Update(mk("b")) }, "ok") &&
 		step("value-after-update", func() (string, error) { return val(wt) }, "b")
 	wt.Close()
 	if !ok {
@@ -601,7 +651,7 @@ func c11MarshalerType(c *core.Ctx, k storeKind, ns string) {
 		return
 	}
 	wt = st.Write(id)
-	_ = step("duplicate-create", func() (string, error) { return "ok", wt.Create(c11Stamp{U: "c"}) }, "error:duplicate") &&
+	_ = step("duplicate-create", func() (string, error) { return "ok", wt.Create(mk("c")) }, "error:duplicate") &&
 		step("delete", func() (string, error) { return "ok", wt.Delete() }, "ok") &&
 		step("value-after-delete", func() (string, error) { return val(wt) }, "error:notfound")
 	wt.Close()
@@ -633,6 +683,9 @@ func c11Sequential(c *core.Ctx, k storeKind, ns string) bool {
 		bst.BeforeChange(func(id string, before, after interface{}) error {
 			if after != nil && valVeto(after) {
 				return errVeto
+			}
+			if _, veto := c11VetoDelete.Load(id); veto && after == nil {
+				return errVeto // a delete the listener does not allow
 			}
 			return nil
 		})
